@@ -165,6 +165,22 @@ fn reser(bytes: &[u8]) -> Result<R<(Vec<u8>, usize)>, ()> {
         Ok((w.finalize()?, n))
     })
 }
+/// the same copy through the other serialisation path of the library: EntryPart::from(entry) (into_chunks, what
+/// the split writer uses) followed by add_entry_part.  Must produce the bytes add_entry produces.
+fn reser_parts(bytes: &[u8]) -> Result<R<(Vec<u8>, usize)>, ()> {
+    guard(|| -> R<(Vec<u8>, usize)> {
+        let mut a = Archive::read_header(bytes)?;
+        let mut w = Archive::write_header(Vec::new())?;
+        let mut n = 0;
+        for e in a.entries() {
+            n += match e? {
+                ReadEntry::Normal(x) => w.add_entry_part(EntryPart::from(x))?,
+                ReadEntry::Solid(x) => w.add_entry_part(EntryPart::from(x))?,
+            };
+        }
+        Ok((w.finalize()?, n))
+    })
+}
 fn solid(bytes: &[u8]) -> String {
     match guard(|| -> R<(Vec<String>, R<()>)> {
         let mut a = Archive::read_header(bytes)?;
@@ -516,6 +532,16 @@ fn run(c: &Case, oracle: &mut Vec<String>) -> String {
                     if e0 != e1 {
                         oracle.push("decode -> encode changed the meaning of an entry".into());
                     }
+                    // the two serialisers of the library agree: add_entry (chunks_write_in) and
+                    // EntryPart::from(entry) + add_entry_part (into_chunks, the split writer's path)
+                    match reser_parts(&b) {
+                        Ok(Ok((bp, np))) => {
+                            if bp != b1 || np != n1 {
+                                oracle.push("EntryPart::from(entry) + add_entry_part writes other bytes than add_entry (into_chunks vs chunks_write_in)".into());
+                            }
+                        }
+                        _ => oracle.push("EntryPart::from(entry) + add_entry_part failed where add_entry succeeded".into()),
+                    }
                     let r2 = reser(&b1);
                     match &r2 {
                         Ok(Ok((b2, _))) => {
@@ -819,6 +845,17 @@ fn gen(prop: &str, tier: &str, seed: u64) -> Vec<String> {
                     }
                     v.push(format!("ptrunc\t{}\t{}\t{}\t{}", rds[(n + k) % 2], all, k, n));
                 }
+            }
+        }
+    }
+    if want("C07") {
+        // every structured payload the readers parse, damaged field by field, in an otherwise well-formed entry
+        for (i, b) in field_sweep_archives().into_iter().enumerate() {
+            v.push(format!("entries\t{}\t{}", rds[i % 2], hex(&b)));
+            match i % 3 {
+                0 => v.push(format!("solid\t{}", hex(&b))),
+                1 => v.push(format!("reser\t{}", hex(&b))),
+                _ => v.push(format!("entries\t{}\t{}", rds[(i + 1) % 2], hex(&b))),
             }
         }
     }
